@@ -222,6 +222,31 @@ pub fn open_index_with_events(
   Index::open_with_event_sender(&settings, Some(sender))
 }
 
+/// Removes scratch directories left behind by runs that were killed (a
+/// normal run removes its own); only those older than six hours, so that a
+/// concurrent run is never touched.
+pub fn remove_stale_scratch_dirs() {
+  for base in [Path::new("/dev/shm").to_path_buf(), std::env::temp_dir()] {
+    let Ok(entries) = std::fs::read_dir(&base) else {
+      continue;
+    };
+    for entry in entries.flatten() {
+      if !entry.file_name().to_string_lossy().starts_with("ordverif-") {
+        continue;
+      }
+      let old = entry
+        .metadata()
+        .and_then(|m| m.modified())
+        .ok()
+        .and_then(|t| t.elapsed().ok())
+        .is_some_and(|age| age.as_secs() > 6 * 3600);
+      if old {
+        let _ = std::fs::remove_dir_all(entry.path());
+      }
+    }
+  }
+}
+
 /// A fresh scratch directory, in memory when /dev/shm exists.
 pub fn scratch_dir() -> tempfile::TempDir {
   let base = Path::new("/dev/shm");
